@@ -96,6 +96,15 @@ func c14Package(rng *rand.Rand, idx int) (rcase, []c14op) {
 						body.Ref = g.name()
 					}
 					o.Body = &dialect.Body{Content: "application/json", Schema: body.Dialect(&sp.CompSchemas), Required: true}
+					if rng.Intn(3) == 0 {
+						// a components.requestBodies entry (its schema defined in place unless the body is a schema $ref)
+						if sp.CompBodies == nil {
+							sp.CompBodies = map[string]dialect.Body{}
+						}
+						bn := fmt.Sprintf("RB%d", len(sp.CompBodies))
+						sp.CompBodies[bn] = *o.Body
+						o.Body = &dialect.Body{Ref: bn}
+					}
 				case 2:
 					body = &JS{Kind: "arr", Inner: g.value(1)}
 					if body.Inner.Kind == "obj" && body.Inner.Ref == "" {
